@@ -38,7 +38,9 @@ CONSTANTS Vers,        \* subset of {"sasl","sasl2"}
           MaxHist      \* bound on behaviour length (generator configurations only)
 
 VARIABLES c,          \* the connection: [phase, authed, res, st, ver, xuser, b2]
-          pending,    \* checker requests not yet answered: [op, user, ok, stale, ver]
+          pending,    \* checker requests not yet answered: [op, user, ok, cr, stale, ver]; cr = the credential
+                      \* class that asked: classes the model treats alike (same user, same verdict) may
+                      \* differ in the implementation, so the generators must not merge their states
           routes,     \* full JIDs registered for routing (QXmppServerPrivate::incomingClientsByJid)
           approved,   \* ghost: users for whom the checker/digest verification approved an exchange on this connection
           proved,     \* ghost: users whose right password the client has presented so far
@@ -65,8 +67,28 @@ Sfx(v)      == IF v = "sasl2" THEN "2" ELSE ""
 Fail(v)      == E(IF v = "sasl2" THEN "failure2" ELSE "failure")
 Challenge(v) == E(IF v = "sasl2" THEN "challenge2" ELSE "challenge")
 
-UserOf(cr) == IF cr = "otherUser" THEN Vic ELSE Att   \* whose name the credentials carry
-Right(cr)  == cr = "right"                              \* ... and whether the password is that user's
+\* Credential classes = WHO is named x WHAT secret the payload / the digest response is computed
+\* with (the attacker knows the password of its own accounts only):
+\*   right, wrongPw, ownEmpty            the own account: its password, a wrong one, the empty one
+\*   otherUser, victimEmpty              the victim: the attacker's password, the empty one
+\*   unknownPw, unknownEmpty             no such account ("nobody"): some password, the empty one
+\*   embedEmpty, embedBareEmpty, embedSlashEmpty   no such account, the NAME embeds the victim's address
+\*                                       ("victim@example.org/y", "victim@example.org", "victim/y"), empty password
+\*   embedKnown                          an account that exists under the name "victim@example.org/x" and
+\*                                       belongs to the attacker, its password
+\*   malformed, empty                    payload shapes without credentials
+\* The SASL user name becomes the localpart of d->jid.  Intended: a name that is not a valid
+\* localpart (RFC 7622: no '@', no '/', ...) is refused before the checker is asked -- otherwise the
+\* address parses as somebody else's (d->jid = "victim@example.org/x@example.org", bind rebuilds it
+\* as bare(d->jid)/resource = victim@example.org/resource).
+ShapeCreds == {"malformed", "empty"}
+EmbedCreds == {"embedEmpty", "embedBareEmpty", "embedSlashEmpty", "embedKnown"}
+Asks(cr)   == cr \notin ShapeCreds \cup EmbedCreds      \* credentials that reach the password checker
+Nobody     == "nobody"
+UserOf(cr) == CASE cr \in {"otherUser", "victimEmpty"} -> Vic      \* whose name the credentials carry
+                [] cr \in {"unknownPw", "unknownEmpty"} -> Nobody
+                [] OTHER -> Att
+Right(cr)  == cr = "right"                              \* ... and whether the secret is that user's password
 
 AllStanzas == Kinds \X Froms \X Tos
 \* reduced alphabets for generator configurations (a .cfg cannot write tuples)
@@ -78,6 +100,7 @@ CoreStanzas == {<<"message", "absent", "victimFull">>, <<"iq", "absent", "domain
 NearOwnFroms == {"ownOtherRes", "ownSibling", "ownCase", "ownSlash", "ownPrefix", "ownDomain", "ownLookalike"}
 MidStanzas  == ({"message", "iq"} \X {"absent", "own", "victim"} \X {"victimFull", "domain"})
                \cup ({"message"} \X NearOwnFroms \X {"victimFull"})
+OneStanza   == {<<"message", "absent", "victimFull">>}
 \* exhaustive configuration: everything for the five basic classes, the near-own classes (which the
 \* model treats alike: dropped) towards the victim's full JID
 McStanzas   == (Kinds \X (Froms \ NearOwnFroms) \X Tos) \cup (Kinds \X NearOwnFroms \X {"victimFull"})
@@ -138,7 +161,7 @@ Open(dom) ==
 (* --- <auth/> / <authenticate/> ------------------------------------------- *)
 Auth(v, m, cr, b) ==
     LET h == [a |-> "Auth", ver |-> v, mech |-> m, cred |-> cr, b2 |-> b]
-        ask == Append(StaleAll(pending), [op |-> "check", user |-> UserOf(cr), ok |-> Right(cr), stale |-> FALSE, ver |-> v])
+        ask == Append(StaleAll(pending), [op |-> "check", user |-> UserOf(cr), ok |-> Right(cr), cr |-> cr, stale |-> FALSE, ver |-> v])
     IN
     /\ c.phase = "open"
     /\ (b => v = "sasl2") /\ (m # "PLAIN" => cr = "empty")
@@ -147,7 +170,8 @@ Auth(v, m, cr, b) ==
          [] m = "PLAIN" /\ cr = "empty" ->
                 Step(h, [c EXCEPT !.st = "plainWait", !.ver = v, !.b2 = b, !.xuser = ""], StaleAll(pending),
                      routes, approved, <<Challenge(v)>>, <<>>, <<>>)
-         [] m = "PLAIN" /\ cr \notin {"malformed", "empty"} ->
+         [] m = "PLAIN" /\ cr \in EmbedCreds -> CloseWith(h, <<Fail(v)>>)     \* not a localpart: refused unasked
+         [] m = "PLAIN" /\ Asks(cr) ->
                 /\ Len(pending) < MaxPending
                 /\ Step(h, [c EXCEPT !.st = "check", !.ver = v, !.b2 = b, !.xuser = UserOf(cr)], ask,
                         routes, approved, <<>>, <<>>, <<>>)
@@ -166,18 +190,20 @@ Response(v, cr) ==
     /\ CASE ~mine -> CloseWith(h, <<Fail(v)>>)                 \* response without an exchange
          \* (an empty response makes the PLAIN object ask again, which the response branch treats as a failure)
          [] mine /\ c.st = "plainWait" /\ cr \in {"empty", "malformed"} -> CloseWith(h, <<Fail(v)>>)
-         [] mine /\ c.st = "plainWait" /\ cr \notin {"empty", "malformed"} ->
+         [] mine /\ c.st = "plainWait" /\ cr \in EmbedCreds -> CloseWith(h, <<Fail(c.ver)>>)
+         [] mine /\ c.st = "plainWait" /\ Asks(cr) ->
                 /\ Len(pending) < MaxPending
                 /\ Step(h, [c EXCEPT !.st = "check", !.xuser = UserOf(cr)],
-                        Append(pending, [op |-> "check", user |-> UserOf(cr), ok |-> Right(cr), stale |-> FALSE, ver |-> c.ver]),
+                        Append(pending, [op |-> "check", user |-> UserOf(cr), ok |-> Right(cr), cr |-> cr, stale |-> FALSE, ver |-> c.ver]),
                         routes, approved, <<>>, <<>>, <<>>)
          [] mine /\ c.st = "check" -> CloseWith(h, <<Fail(v)>>)   \* PLAIN server object is past its only step
          [] mine /\ c.st \in {"digestWait", "digestCheck"} /\ cr \in {"empty", "malformed"} -> CloseWith(h, <<Fail(v)>>)
-         [] mine /\ c.st \in {"digestWait", "digestCheck"} /\ cr \notin {"empty", "malformed"} ->
+         [] mine /\ c.st \in {"digestWait", "digestCheck"} /\ cr \in EmbedCreds -> CloseWith(h, <<Fail(c.ver)>>)
+         [] mine /\ c.st \in {"digestWait", "digestCheck"} /\ Asks(cr) ->
                 \* the digest of the named user is requested; verification happens when it arrives
                 /\ Len(pending) < MaxPending
                 /\ Step(h, [c EXCEPT !.st = "digestCheck"],
-                        Append(pending, [op |-> "digest", user |-> UserOf(cr), ok |-> Right(cr), stale |-> FALSE, ver |-> c.ver]),
+                        Append(pending, [op |-> "digest", user |-> UserOf(cr), ok |-> Right(cr), cr |-> cr, stale |-> FALSE, ver |-> c.ver]),
                         routes, approved, <<>>, <<>>, <<>>)
          [] mine /\ c.st = "digestFinal" -> Accept(h, c.xuser, pending, v)   \* client acknowledges rspauth
 
